@@ -145,6 +145,10 @@ pub static DEBUG_RUNS: std::sync::atomic::AtomicUsize = std::sync::atomic::Atomi
 impl std::fmt::Debug for A8 {
     fn fmt(&self, f: &mut std::fmt::Formatter<'_>) -> std::fmt::Result {
         DEBUG_RUNS.fetch_add(1, SeqCst);
+        if self.0 == 13 {
+            // user code that panics while the runtime renders the call for an error message
+            panic!("user:debug");
+        }
         write!(f, "{}", self.0)
     }
 }
